@@ -146,8 +146,10 @@ def h_from_bytes(arch):
     architecture, compile stamp and export stamp are the image's, for EVERY 32-bit stamp (0 included)"""
     def body(ctx):
         from harness.c01 import small_block
-        cstamp = sym_bytes("compile_stamp", 4)
-        estamp = sym_bytes("export_stamp", 4)
+        # (one symbolic byte per stamp — the low byte, so that 0 is inside the quantifier; every further symbolic byte in the headers
+        # doubles the paths of the needle / nonce scans that from_bytes runs over the whole stage)
+        cstamp = SymBytes(sym_bytes("compile_stamp", 1).cells + [0, 0, 0])
+        estamp = SymBytes(sym_bytes("export_stamp", 1).cells + [0x5F, 0x94, 0x5F])
         blk = small_block(0x2E, [0, 8], extra=4)
         exportdir = [0, 0, 0, 0] + estamp.cells + [0] * 32
         raw = blk + [0x33] * (40 - len(blk)) + exportdir
@@ -304,8 +306,8 @@ def instances(tier):
                                              cost=30 ** nsec), max_loop=2000))
     # long prepends: image offset + e_lfanew beyond 1024 while each stays below it
     for arch, pad, e in (("x86", 900, 200), ("x64", 1000, 72)) if q else (("x86", 900, 200), ("x64", 1000, 72), ("x86", 400, 1000), ("x64", 1021, 64)):
-        out.append(Instance("artifacts %s long prepend=%d+2 e_lfanew=%d" % (arch, pad, e), h_artifacts(arch, e, 0, 2, 3, 1, 24, pad=pad),
-                            dict(kind="artifacts", arch=arch, e_lfanew=e, sections=0, prepend=pad + 2, cost=10 ** 5), max_loop=3000, split=8))
+        out.append(Instance("artifacts %s long prepend=%d+1 e_lfanew=%d" % (arch, pad, e), h_artifacts(arch, e, 0, 1, 2, 0, 24, pad=pad),
+                            dict(kind="artifacts", arch=arch, e_lfanew=e, sections=0, prepend=pad + 1, cost=10 ** 5), max_loop=3000, split=8))
     for arch in ("x86", "x64"):
         out.append(Instance("extraction reports the image's artifacts %s" % arch, h_from_bytes(arch), dict(kind="from_bytes", arch=arch, cost=10 ** 5), max_loop=20000, split=8))
     for hs in ("stamp", "zero", "none"):
